@@ -7,7 +7,7 @@ CHECKS = {
         "parts": BASE,
         "level": "exploration",
         "technique": "runtime monitor: step-bounded tokenizer driver + losslessness/quoted-run oracle (bounded-exhaustive + random inputs)",
-        "rule": "inputs: every string over the 15-symbol token alphabet {space TAB a 1 _ $ ? , ' \" ` [ ] \\ e-acute} up to length 5 (quick) / 7 (thorough), random Unicode strings up to 300 chars, short strings over 18 characters from outside ASCII's classes (byte-order mark, Unicode spaces, form feed, non-Latin and superscript digits, NUL), constructed prefix+quoted-run+suffix inputs (bracket runs end at the first `]` that no backslash precedes) and constructed prefix+word+suffix inputs (a word — letters of any script or digits, then letters, digits, `_`, `$` — is one unquoted token); a case is non-trivial when it tokenizes into >= 2 tokens; distinct = distinct input strings (hashed)",
+        "rule": "inputs: every string over the 15-symbol token alphabet {space TAB a 1 _ $ ? , ' \" ` [ ] \\ e-acute} up to length 5 (quick) / 7 (thorough), random Unicode strings up to 300 chars, short strings over 18 characters from outside ASCII's classes (byte-order mark, Unicode spaces, form feed, non-Latin and superscript digits, NUL), constructed prefix+quoted-run+suffix inputs (bracket runs end at the first `]` that no backslash precedes; one case in eight ends inside the run right after a doubled delimiter: one quoted token to the end of the input) and constructed prefix+word+suffix inputs (a word — letters of any script or digits, then letters, digits, `_`, `$` — is one unquoted token); a case is non-trivial when it tokenizes into >= 2 tokens; distinct = distinct input strings (hashed)",
         "assumptions": [
             "reference for quoted runs is the construction itself: the run is assembled from pieces (plain chars, doubled delimiter, backslash-escaped delimiter, escaped backslash, marks) so its end is known without re-implementing the tokenizer",
             "a hang inside one tokenizer call is reported after 30 s without progress (normal cost is microseconds)",
@@ -47,7 +47,7 @@ CHECKS["C04"] = {
     "parts": BASE,
     "level": "exploration",
     "technique": "runtime monitor: dialect lexers decode every rendered identifier; marker-vs-hostile token-sequence comparison over 62 identifier positions; SQLite catalogue / column-name read-back",
-    "rule": "inputs: every non-empty string over the 13-symbol identifier alphabet {\" ` ' \\ space ; - . [ ] a e-acute *} up to length 3 (quick) / 4 (thorough) in each of 65 identifier positions of query and schema statements x 3 backends, plus random Unicode names up to 32 chars, one name in five handed over by a user-written Iden type that writes character by character, plus 13 names that come from #[derive(Iden)] / #[derive(IdenStatic)] enums and a unit struct (renamed variants with quote characters, in and out of last position) in 5 positions x 3 backends; non-trivial = the name contains a non-alphanumeric character; distinct = distinct (name, position, backend)",
+    "rule": "inputs: every non-empty string over the 13-symbol identifier alphabet {\" ` ' \\ space ; - . [ ] a e-acute *} up to length 3 (quick) / 4 (thorough) in each of 67 identifier positions of query and schema statements x 3 backends, plus random Unicode names up to 32 chars, one name in five handed over by a user-written Iden type that writes character by character, plus 13 names that come from #[derive(Iden)] / #[derive(IdenStatic)] enums and a unit struct (renamed variants with quote characters, in and out of last position) in 5 positions x 3 backends; non-trivial = the name contains a non-alphanumeric character; distinct = distinct (name, position, backend)",
     "assumptions": [
         "identifier lexical rules from the manuals: MySQL backtick with doubled backtick (no backslash escapes), Postgres/SQLite double quote with doubled double quote",
         "empty identifiers and NUL are outside the domain; a Postgres enum cast type ending in [] denotes the array form by documented convention",
